@@ -1,8 +1,8 @@
 """Which suites, theorems and extracted data decide which property."""
-from . import dhcpwire, pool, dhcp, acl, dnsrate, dnscache, dnsroute
+from . import dhcpwire, pool, dhcp, acl, dnsrate, dnscache, dnsroute, dnswire
 
 SUITES = {}
-for cls in [dhcpwire.DhcpRoundTrip, dhcpwire.DhcpParse, dhcpwire.Frame, dhcpwire.BroadcastFlag, pool.PoolHistory, dhcp.DhcpHistory, acl.AclSuite, acl.LeaseJson, dnsrate.BucketSuite, dnsrate.RateLimitSuite, dnscache.CacheSuite, dnsroute.RouteSuite]:
+for cls in [dhcpwire.DhcpRoundTrip, dhcpwire.DhcpParse, dhcpwire.Frame, dhcpwire.BroadcastFlag, pool.PoolHistory, dhcp.DhcpHistory, acl.AclSuite, acl.LeaseJson, dnsrate.BucketSuite, dnsrate.RateLimitSuite, dnscache.CacheSuite, dnsroute.RouteSuite, dnswire.DnsEnc, dnswire.DnsDec, dnswire.InReply]:
     SUITES[cls.name] = cls()
 
 TRUSTED_BASE = [
@@ -28,6 +28,13 @@ DHCP_RULE = ("YAML configurations generated from the grammar of erbium.conf(5) (
              "option 50/ciaddr, server-id own/foreign/malformed, parameter lists) and clock advances through dhcp::handle_pkt; "
              "non-trivial = at least one reply; distinct = distinct line")
 DHCP_TRUST = ["yaml_rust and the loader turn the text into config::Policy values; the model starts from the loaded policy tree dumped by the harness (option values via as_bytes)"]
+
+DNS_RULE = ("structured DNS messages (0..12 records, thorough up to 900; names sharing suffixes at every depth incl. chains extended one "
+            "label at a time, 63-octet and binary labels; all RData variants with embedded names; rdata 0..65535; EDNS options; "
+            "rcodes incl. extended; sizes crossing 16 KiB) through DNSPkt::serialise_with_size at limits 512..65536, read back by the "
+            "crate's decoder, by the model's and by an independent walker; wire inputs from an independent python encoder with and "
+            "without compression plus every truncation point, boundary values in length/count/pointer fields, pointer loops/chains; "
+            "create_in_reply on generated query x upstream-reply pairs; non-trivial = carries records / is longer than a header")
 
 # property -> suites (name, cases quick, cases thorough), extracted items, notes
 PROPS = {
@@ -116,5 +123,23 @@ PROPS = {
              "upstreams in a private network namespace; non-trivial = forwarded or forged",
         assumptions=["maximal matching suffixes claimed by routes with different actions are left open by the statement (any of them is accepted)"],
         trusted=["the kernel's loopback UDP in a private network namespace; the fake upstream identifies itself in the answer"],
+    ),
+    "C03": dict(
+        suites=[("inreply", 2500, 60000), ("dnsdec", 1500, 30000), ("dnsenc", 1500, 30000)],
+        extracted=["dns.createInReplyFields"],
+        rule=DNS_RULE,
+        assumptions=["socket I/O of outquery.rs is outside this property's model (C07)"], trusted=[],
+    ),
+    "C14": dict(
+        suites=[("dnsenc", 2500, 60000), ("dnsdec", 2500, 60000)],
+        extracted=["dns.pointerLimit", "dns.pointerDepthLimit"],
+        rule=DNS_RULE, assumptions=["messages up to 65535 octets (offsets are kept in a u16)", "names of at most 127 labels of 1..63 octets (RFC 1035 limits; the code does not enforce the 255-octet name limit)"],
+        trusted=["Vec/LinkedList as lists; the suffix tree is modelled node for node"],
+    ),
+    "C04": dict(
+        suites=[("dnsenc", 2500, 60000), ("dnsdec", 1000, 20000)],
+        extracted=["dns.spliceRanges", "dns.transportLimits", "dns.prepareFloor"],
+        rule=DNS_RULE, assumptions=["which limit each transport passes is tied by extraction of the call sites in run_udp / run_tcp (they need sockets to run)"],
+        trusted=[],
     ),
 }
